@@ -61,7 +61,8 @@ def handleAlloc : Handler := fun st op args =>
     | some d, some s, some m =>
       let buf : Option (Option Nat) :=
         match rest with
-        | [] => some none
+        | [] => some none          -- Position.Move
+        | ["nil"] => some none     -- MovePreallocated(m, nil): allocates like Move
         | [b] => b.toNat?.map some
         | _ => none
       match buf, st.slots.getD s none with
